@@ -69,6 +69,9 @@ def method_ops(value):
         ("multiwalk", ("multiwalk", [(1, 3, 1), (1, 3, 9)])),
         ("bulkwalk", ("bulkwalk", [(1, 3, 1), ENTRY], 3)),
         ("bulkget", ("bulkget", [(1, 3, 1, 1), (1, 3, 9, 1, 0)], [(1, 3, 1), (1, 3, 9)], 2)),
+        ("bulkget-empty-listing", ("bulkget", [(1, 3, 1, 1), (1, 3, 1, 2)], [], 0)),
+        ("bulkget-listing-at-end-of-view", ("bulkget", [(1, 3, 1, 1)], [(1, 3, 9, 1, 0)], 2)),
+        ("bulkget-max0", ("bulkget", [(1, 3, 1, 1)], [(1, 3, 1)], 0)),
         ("table", ("table", ENTRY)),
         ("bulktable", ("bulktable", T, 2)),
     ]
